@@ -343,6 +343,7 @@ def gen_case(rng, kind, tier, flavour=None, small=False):
     if big:
         c['queries'] = c['queries'][:5]
     c['strat'] = rng.choice(STRATS)
+    c['qstrat'] = rng.choice(STRATS) if kind == 'bai' else 'nil'     # bam.Index.MergeStrategy used by the public Chunks
     c['wellformed'] = wellformed and mono
     c['mono'] = mono
     c['flavour'] = flavour or 'plain'
@@ -362,20 +363,25 @@ def gen_nested(rng, kind, tier):
     hi = (1 << (ms + 3 * dp)) - 2
     lvl = rng.randrange(1, min(dp, 3) + 1)
     w = 1 << (ms + 3 * lvl)                      # width of a level-(dp-lvl) bin
+    w8 = w >> 3                                  # width of its children
     if 2 * w + 10 > hi:
         return c
     base = rng.randrange(0, 3) * w
     if base + 2 * w > hi:
         base = 0
     t = 1 << ms
-    a = base + rng.randrange(0, t)
-    recs = [dict(rid=0, pos=a, end=min(hi, a + t + rng.randrange(1, w - 2 * t))),
-            dict(rid=0, pos=a + t + rng.randrange(0, 50), end=0),
-            dict(rid=0, pos=0, end=0)]
-    recs[1]['pos'] = ((recs[1]['pos'] >> ms) << ms) + rng.randrange(0, t - 60)
-    recs[1]['end'] = recs[1]['pos'] + rng.randrange(1, 50)
-    recs[2]['pos'] = recs[1]['end'] + rng.randrange(0, t)
-    recs[2]['end'] = min(hi, max(recs[2]['pos'] + t + 1, ((recs[2]['pos'] >> ms) + 2) << ms) + rng.randrange(0, t))
+    # A and C both cross a child boundary of the same bin (so both are filed under it),
+    # B lies in one tile of the child between them (leaf bin): after Squash/Compressor
+    # the bin's single chunk [A.begin, C.end) encloses B's chunk.
+    d1, d2, d3, d4 = rng.randrange(1, 60), rng.randrange(1, 60), rng.randrange(1, 60), rng.randrange(1, 60)
+    a = base + w8 - d1
+    bs = base + w8 + d2 + rng.randrange(0, 10)
+    cs = base + 2 * w8 - d3
+    recs = [dict(rid=0, pos=a, end=base + w8 + d2),
+            dict(rid=0, pos=bs, end=bs + rng.randrange(1, 20)),
+            dict(rid=0, pos=cs, end=base + 2 * w8 + d4)]
+    if a < 0 or not (recs[0]['pos'] <= recs[1]['pos'] <= recs[2]['pos']):
+        return c
     for _ in range(rng.randrange(0, 3)):
         p = recs[-1]['pos'] + rng.randrange(0, 2 * t)
         recs.append(dict(rid=0, pos=p, end=min(hi, p + rng.choice([5, t + 7, 3 * t]))))
@@ -396,13 +402,14 @@ def gen_nested(rng, kind, tier):
     for r, (b, e) in zip(recs, lay):
         r['cb'], r['ce'] = b, e
     c['recs'] = recs
-    qs = []
+    qs = [[0, bs, cs + 1], [0, max(0, bs - rng.randrange(0, 50)), cs + rng.randrange(1, 40)], [0, cs, cs + 1]]
     for r in recs:
         for _ in range(2):
             b = max(0, r['pos'] - rng.randrange(0, 3 * t))
             qs.append([0, b, min(hi + 1, max(b + 1, r['pos'] + rng.randrange(1, t)))])
     c['queries'] = qs[:10]
     c['strat'] = rng.choice(['squash', 'squash', 'comp:0', 'comp:100', 'comp:65536'])
+    c['qstrat'] = rng.choice(['squash', 'squash', 'squash', 'adjacent', 'nil', 'identity', 'comp:0', 'comp:65536']) if kind == 'bai' else 'nil'
     c['wellformed'], c['mono'], c['flavour'] = True, True, 'nested'
     return c
 
